@@ -68,7 +68,7 @@ def pools():
     mx = ["10 mail.example.", "10 MAIL.Example.", "10 mail2.example.", "20 mail.example.", "10 mAIL2.EXAMPLE."]
     P["MX"] = [rd_text("IN", "MX", x) for x in mx]
     P["MX"] += [rd_text("IN", "MX", "10 mail", origin=None), rd_text("IN", "MX", "10 MAIL", origin=None),
-                rd_text("IN", "MX", "10 mail2", origin=None)]
+                rd_text("IN", "MX", "10 mail2", origin=None), rd_text("IN", "MX", "10 mail."), rd_text("IN", "MX", "10 Mail2.")]
     P["TXT"] = [rd_text("IN", "TXT", x) for x in ('"a"', '"A"', '"a" "b"', '"ab"', '""')]
     P["CNAME"] = [rd_text("IN", "CNAME", x) for x in ("a.example.", "A.EXAMPLE.", "b.example.", "c.example.")]
     P["SOA"] = [rd_text("IN", "SOA", x) for x in ("ns.example. root.example. 1 2 3 4 5", "NS.example. ROOT.example. 1 2 3 4 5",
@@ -404,6 +404,9 @@ def gen_rds_script(rng):
         if lab == "RRSIG" and rng.chance(1, 2):
             cov = rng.choice([1, 2])
         script.append(["new", r, c, t, cov, rng.choice(TTLS)])
+    for r in range(4):
+        for _ in range(rng.below(5)):
+            script.append(["add", r, [main, rng.below(len(P[main]))], rng.choice(TTLS + [None, None])])
     n = rng.range(5, 40)
     for _ in range(n):
         op = rng.choice(RDS_OPS)
@@ -551,7 +554,7 @@ def run_rds_script(ctx, case, rep):
                     elif err is not None:
                         fail("C07/Rdataset/add/raises", f"add of {rd_lit(rd)} raised {err!r}")
                     elif int(rd.rdtype) in singletons:
-                        if list(R) != [rd] and not (len(R) == 1 and R[0] == rd and not before == [] and before[-1] == rd and len(before) == 1):
+                        if keys(r) != [rd_key(rd)]:
                             fail("C07/Rdataset/add/singleton-keeps-newest", f"after add of {rd_lit(rd)}: {rds_state(R)}")
                     else:
                         exp = bk if rd_key(rd) in bk else bk + [rd_key(rd)]
@@ -743,13 +746,14 @@ def run_rds_script(ctx, case, rep):
             break
         trace.append(out)
         # invariants after every operation
+        written = st[1]
         for i, r in enumerate(regs):
             ks = [rd_key(x) for x in r]
             if len(set(ks)) != len(ks):
                 fail("C07/Rdataset/duplicates", f"register {i}: {rds_state(r)}")
-            if isinstance(r, dns.rdataset.ImmutableRdataset) and isinstance(regs[i], dns.rdataset.ImmutableRdataset) \
-                    and i < len(snap) and is_imm(i) and snap[i][4] is not None:
-                pass
+            if i != written and rds_snapshot(r) != snap[i]:
+                # value semantics: copies, wrappers and results share nothing with their sources
+                fail("C07/Rdataset/isolation/other-object-changed", f"{op0} on register {written} changed register {i} to {rds_state(r)}")
             if r.ttl != min(ghost[i]):
                 fail("C07/Rdataset/ttl/minimum-of-merged", f"register {i}: ttl {r.ttl}, TTLs merged since last empty: {ghost[i]}")
         if imm_before and is_imm(tgt) and mutating and rds_snapshot(regs[tgt]) != snap[tgt]:
@@ -875,8 +879,9 @@ def eval_case(ctx: Ctx, c: dict):
         trace = run_set_script(ctx, c["script"], rep)
         ctx.corr("c07.set " + " ".join(script_tokens(c["script"])), "|".join(trace), c)
         ctx.count("set.script")
+        binary = set(ALIAS) | {"uu", "iu", "du", "sdu", "un", "in", "df", "sd", "sub", "sup", "dj", "eq"}
         for st in c["script"]:
-            ctx.count("set.op." + st[0] + (".alias" if len(st) >= 3 and st[0] not in ("new", "upd", "add", "rm", "disc", "get", "del", "gets", "dels", "cp") and st[-1] == st[-2] else ""))
+            ctx.count("set.op." + st[0] + (".alias" if st[0] in binary and st[-1] == st[-2] else ""))
     elif k == "rds":
         trace = run_rds_script(ctx, c, rep)
         if not any(t.startswith("FOREIGN") for t in trace):
@@ -896,8 +901,6 @@ def eval_case(ctx: Ctx, c: dict):
                 if x == y and sgn(x._cmp(z)) != sgn(y._cmp(z)):
                     ctx.fail("C07/Rdata/order/eq-congruence", f"{x!r} == {y!r} compare differently with {z!r}", rep)
             srt = sorted([a, b, d])
-            if [rd_key(x)[2:] for x in srt] != sorted([(not rd_key(x)[2], rd_key(x)[3]) for x in (a, b, d)]) and False:
-                pass
             ks = [(0 if rd_key(x)[2] else 1, rd_key(x)[3]) for x in srt]
             if ks != sorted(ks):
                 ctx.fail("C07/Rdata/order/sorted", f"sorted() is not canonical RDATA order: {srt!r}", rep)
@@ -946,7 +949,7 @@ def run(ctx: Ctx):
         ctx.case(("corpus", p), sample=None)
         eval_case(ctx, c)
         ctx.count("corpus")
-    generate(ctx, 1 if ctx.tier == "quick" else 20, ctx.rng)
+    generate(ctx, 2 if ctx.tier == "quick" else 40, ctx.rng)
 
 
 def search(ctx: Ctx):
